@@ -40,6 +40,28 @@ GEOM_NOTE = ("Trusted: Coq kernel; extraction + float64 shim; harness/driver tra
              "cos/sin of the angles are values supplied by libm (premises).")
 
 CLAIMS = {
+    "C01": dict(
+        engine="geom", design_ref="DESIGN.md section 4 C01",
+        technique="Coq proof over the reals for all states and ALL lattice translates in Z^2 (induction-free: loop coverage + a far-image bound) + model/impl comparison + brute-force lattice oracle",
+        text="Theorems (reals, every well-formed state): if the model of check_intersection lets the state be scored then for "
+             "every pair of copies i, j and every translate (n,m) in Z^2 (not a copy with itself) either the centres are more "
+             "than 2R apart or the pair predicate was evaluated on exactly that pair and said no - the shell count "
+             "ceil(2R/(sin(angle) min(a,b))) the code computes is proved sufficient.  For circle and trimer shapes this is lifted "
+             "to the plane: no point is interior to two copies of the tiling.  For polygons the last step needs the "
+             "completeness of the polygon pair test (unproved; see C12), so the polygon claim is partial.  The monitor "
+             "searches all generated states (flat cells, copies near opposite faces, aligned/clamped states, optimiser outputs) "
+             "with an independent separating-axis lattice oracle over one more shell than needed.",
+        note=GEOM_NOTE),
+    "C12": dict(
+        engine="geom", design_ref="DESIGN.md section 4 C12",
+        technique="Coq proofs over the reals (field/nra) for soundness, exactness (discs) and symmetry; completeness for polygons NOT proved (partial) + pair engine with separating-axis oracle",
+        text="Theorems (reals): a reported segment (hence polygon) intersection is a common point of two closed edges, so never "
+             "yes for separated polygons; the disc test and the disc-molecule test are exact (yes iff the open discs share a "
+             "point); all tests are symmetric in their arguments.  Not proved: completeness for overlapping convex polygons and "
+             "rigid-motion invariance - and in binary64 both fail at exactly aligned configurations: known findings D12 "
+             "(collinear disjoint edges reported as intersecting) and D13 (copies displaced along an edge direction reported "
+             "as not intersecting after a common rigid motion), found by this check's pair stream and classified by the harness.",
+        note=GEOM_NOTE + "  The oracle is binary64 separating-axis arithmetic with a 1e-9 margin, not exact arithmetic."),
     "C04": dict(
         engine="geom", design_ref="DESIGN.md section 4 C04",
         technique="Coq proof over the reals for all sites/cells (closure table decided by vm_compute, lifted by a general lemma) + model/impl comparison + monitor with an independent table",
@@ -138,4 +160,4 @@ CLAIMS = {
 
 _NOT_YET = "not claimed yet: the model/theorems/engine for this property are still being built (see DESIGN.md section 7)"
 NOT_APPLICABLE = {p: _NOT_YET for p in
-                  ["C01", "C02", "C03", "C08", "C09", "C10", "C11", "C12", "C13"]}
+                  ["C02", "C03", "C08", "C09", "C10", "C11", "C13"]}
